@@ -134,6 +134,16 @@ type ledger struct {
 	nAcked   int
 }
 
+// safeGet: a read that panics (an index entry that points outside its data page) is a read that failed.
+func safeGet(q queue.Queue, s int64) (data []byte, err error) {
+	defer func() {
+		if e := recover(); e != nil {
+			err = fmt.Errorf("panic: %v", e)
+		}
+	}()
+	return q.Get(s)
+}
+
 // verify reads every sequence above the queue ack and checks the ledger.
 func (l *ledger) verify(q queue.Queue, when string, quiescent bool) {
 	c := l.c
@@ -141,7 +151,7 @@ func (l *ledger) verify(q queue.Queue, when string, quiescent bool) {
 	c.Oracle()
 	seen := map[int64]int64{}
 	for s := ack + 1; s <= appended; s++ {
-		data, err := q.Get(s)
+		data, err := safeGet(q, s)
 		if err != nil {
 			c.Violate("C05/get-failed", "%s: Get(%d) failed: %v (appended=%d ack=%d)", when, s, err, appended, ack)
 			return
